@@ -36,7 +36,7 @@ enum {
 	K_S_RATE, K_S_EVENT, K_S_DISCONNECT, K_S_REF, K_S_ITERATE, K_S_STATS, K_S_DESTROY, K_S_CLOSED_RETRY, K_S_ACCEPT_POLICY,
 	K_S_DIE,
 	// hostile peer (task 4)
-	K_H_CONNECT, K_H_SEND_PREFIX, K_H_SEND_FIELD, K_H_SEND_GARBAGE, K_H_SLEEP, K_H_CLOSE, K_H_RAW_REQUEST,
+	K_H_CONNECT, K_H_SEND_PREFIX, K_H_SEND_FIELD, K_H_SEND_GARBAGE, K_H_SLEEP, K_H_CLOSE, K_H_RAW_REQUEST, K_H_SHUTDOWN,
 	K_N
 };
 static const char *const op_names[K_N] = {
@@ -44,7 +44,7 @@ static const char *const op_names[K_N] = {
 	"c_die", "c_fcmax",
 	"s_rate", "s_event", "s_disconnect", "s_ref", "s_iterate", "s_stats", "s_destroy", "s_closed_retry", "s_accept_policy",
 	"s_die",
-	"h_connect", "h_send_prefix", "h_send_field", "h_send_garbage", "h_sleep", "h_close", "h_raw_request"
+	"h_connect", "h_send_prefix", "h_send_field", "h_send_garbage", "h_sleep", "h_close", "h_raw_request", "h_shutdown"
 };
 // server trigger kinds
 enum { T_TICK = 0, T_ACCEPT = 1, T_CREATED = 2, T_MSG = 3, T_CLOSED = 4, T_DESTROYED = 5 };
@@ -144,6 +144,7 @@ struct St {
 	std::string svc_name;
 	qb_loop_t *loop = NULL;
 	qb_ipcs_service_t *svc = NULL;
+	bool hostile_done = false;
 	bool svc_destroyed = false, server_dead = false, server_started = false, server_finished = false, server_will_die = false;
 	int64_t server_death_ns = -1;     // virtual time at which the server process died
 	int server_spid = 0, hostile_spid = 0;
@@ -173,7 +174,7 @@ static St *Gp;
 #define G (*Gp)
 
 static int p_req_full, p_notify_deferred, p_fc_toggled, p_max_size_msg, p_backoff, p_early_req, p_early_out, p_emsgsize,
-	p_send_eagain, p_disc_in_msg, p_ref_outlives, p_closed_retry, p_destroy_alive, p_teardown_kill_armed, p_req_rechecked, p_list_walk, p_client_died, p_server_died,
+	p_send_eagain, p_disc_in_msg, p_ref_outlives, p_closed_retry, p_destroy_alive, p_teardown_kill_armed, p_req_rechecked, p_hostile_shutdown, p_hostile_refused, p_hostile_raw, p_list_walk, p_client_died, p_server_died,
 	p_refused, p_auth_set, p_pollin_checked, p_sendv_recv, p_event_delivered, p_resp_delivered, p_req_delivered, p_kill_fired,
 	p_hostile_conn, p_drain_ok, p_deferred_window, p_owner_checked, p_client_cleanup_checked, p_planted;
 static bool g_avoid_deferred;
@@ -199,6 +200,9 @@ static void init(const char *prop)
 	p_ref_outlives = counter_id("probe", "app_reference_outlives_peer");
 	p_closed_retry = counter_id("probe", "closed_callback_asked_for_retry");
 	p_destroy_alive = counter_id("probe", "service_destroyed_with_live_connections");
+	p_hostile_refused = counter_id("stat", "hostile_raw_connect_refused");
+	p_hostile_raw = counter_id("probe", "hostile_raw_handshake_connections");
+	p_hostile_shutdown = counter_id("probe", "hostile_peer_shut_down_one_direction_and_stayed");
 	p_req_rechecked = counter_id("probe", "request_compared_again_before_msg_process_returned");
 	p_teardown_kill_armed = counter_id("probe", "server_death_armed_inside_connection_teardown");
 	p_list_walk = counter_id("probe", "connection_list_walked");
@@ -611,7 +615,8 @@ static void tick(void *)
 		Op o; memset(&o, 0, sizeof o); o.kind = K_S_RATE; o.a[3] = 1;
 		do_server_op(o, NULL);
 	}
-	if (which == 6 && G.hostile_spid && proc_alive(G.hostile_spid) && !task_done(4 < n_tasks() ? 4 : 0)) {}
+	// the service stays up until the hostile peer has finished what it set out to do as well
+	if (which == 6 && !G.hostile_done) all = false;
 	if (all && G.shutdown_tick < 0) G.shutdown_tick = G.ticks + 3;
 	if (G.shutdown_tick >= 0 && G.ticks >= G.shutdown_tick) {
 		// orderly end: drop what the application still holds, destroy the service, let the loop drain
@@ -1018,10 +1023,11 @@ static void hostile_main(void *)
 			struct sockaddr_un a; memset(&a, 0, sizeof a);
 			a.sun_family = AF_UNIX;
 			snprintf(a.sun_path + 1, sizeof a.sun_path - 1, "%s", G.svc_name.c_str());
-			if (simk_connect(fd, (struct sockaddr *)&a, (socklen_t)(offsetof(struct sockaddr_un, sun_path) + 1 + G.svc_name.size())) != 0) { simk_close(fd); fd = -1; break; }
+			// libqb binds the abstract name with the full size of sockaddr_un: the trailing NULs are part of the name
+			if (simk_connect(fd, (struct sockaddr *)&a, (socklen_t)sizeof a) != 0) { simk_close(fd); fd = -1; count(p_hostile_refused); break; }
 			int on = 1;
 			simk_setsockopt(fd, SOL_SOCKET, SO_PASSCRED, &on, sizeof on);
-			count(p_hostile_conn);
+			count(p_hostile_conn); count(p_hostile_raw);
 			break; }
 		case K_H_SEND_PREFIX:
 		case K_H_SEND_FIELD:
@@ -1061,6 +1067,10 @@ static void hostile_main(void *)
 			ts.tv_sec = us / 1000000; ts.tv_nsec = (us % 1000000) * 1000;
 			simk_nanosleep(&ts, NULL);
 			break; }
+		case K_H_SHUTDOWN:
+			// valid (or not) bytes, then a peer that refuses to read the answer, or will not write any more, yet stays connected
+			if (fd >= 0) { static const int HOW[3] = { SHUT_RD, SHUT_WR, SHUT_RDWR }; simk_shutdown(fd, HOW[(size_t)(((op.a[0] % 3) + 3) % 3)]); count(p_hostile_shutdown); }
+			break;
 		case K_H_CLOSE:
 			if (fd >= 0) { simk_close(fd); fd = -1; }
 			if (g_hostile_cc) { qb_ipcc_disconnect(g_hostile_cc); g_hostile_cc = NULL; }
@@ -1108,6 +1118,7 @@ static void hostile_main(void *)
 	}
 	if (fd >= 0) simk_close(fd);
 	if (g_hostile_cc) { qb_ipcc_disconnect(g_hostile_cc); g_hostile_cc = NULL; }
+	G.hostile_done = true;
 }
 
 // ------------------------------------------------------------------ observers
@@ -1455,6 +1466,7 @@ static void gen(const char *prop, RunSpec &spec)
 				if (y < 35) p.add(4, K_H_SEND_PREFIX, r.range(0, 24), 0, r.chance(1, 2) ? (int64_t)r.range(1, 5) : 0, r.chance(1, 2) ? (int64_t)r.range(10, 20000) : 0);
 				else if (y < 70) p.add(4, K_H_SEND_FIELD, r.below(3), r.below(12));
 				else if (y < 90) p.add(4, K_H_SEND_GARBAGE, r.chance(1, 2) ? (int64_t)r.range(1, 64) : (int64_t)r.range(64, 70000), (int64_t)r.u64() >> 1, r.chance(1, 3) ? (int64_t)r.range(1, 9) : 0, r.chance(1, 3) ? (int64_t)r.range(10, 5000) : 0);
+				if (r.chance(1, 3)) { p.add(4, K_H_SHUTDOWN, r.below(3)); p.add(4, K_H_SLEEP, r.range(100, 300000)); }
 				if (r.chance(1, 3)) p.add(4, K_H_SLEEP, r.range(100, 200000));
 				p.add(4, K_H_CLOSE);
 			} else {
